@@ -43,7 +43,8 @@ Fixpoint text_ok (en : env) (e : expr) {struct e} : Prop :=
                     (fix all (l : list expr) : Prop := match l with [] => True | x :: r => text_ok en x /\ all r end) items
   | EPList items => Nat.even (length items) = true /\
                     (fix all (l : list expr) : Prop := match l with [] => True | x :: r => text_ok en x /\ all r end) items
-  | EObj _ _ _ | EMenu _ _ _ => False
+  | EObj _ _ x => text_ok en x
+  | EMenu _ it mn => text_ok en it /\ text_ok en mn
   | _ => True
   end.
 Fixpoint text_ok_args (en : env) (l : list expr) : Prop := match l with [] => True | x :: r => text_ok en x /\ text_ok_args en r end.
@@ -132,6 +133,51 @@ Proof.
   rewrite dict_strs_goR. reflexivity.
 Qed.
 
+(* the identifier of an object: a constant is written as it is, anything else is generated *)
+Lemma is_const_reify en pc x : text_ok en x ->
+  is_const_node (reify_e en pc x) = match x with EInt _ | EConst _ => true | _ => false end.
+Proof.
+  destruct x; intros Hok; cbn [reify_e]; try reflexivity.
+  - destruct (nth k (e_consts en) (CInt 0)); reflexivity.
+  - cbn [text_ok] in Hok. destruct (nth i (e_locals en) (Leaf KLocal "" 0 true)); try contradiction. destruct k; try contradiction. reflexivity.
+  - match goal with |- context [let '(a, b) := ?X in _] => destruct X end; reflexivity.
+  - match goal with |- context [let '(a, b) := ?X in _] => destruct X end; reflexivity.
+  - match goal with |- context [let '(a, b) := ?X in _] => destruct X end; reflexivity.
+  - match goal with |- context [let '(a, b) := ?X in _] => destruct X end. destruct items; reflexivity.
+  - destruct f; reflexivity.
+Qed.
+
+Lemma ident_text en pc x : PT en x -> text_ok en x -> forall k po ind,
+  gen_lingo (ObjRef k (name_of (reify_e en pc x)) po (reify_e en pc x)) ind = lingo_leaf_obj k (render en (raw_or x (pp_tok en x))).
+Proof.
+  intros HP Hok k po ind. unfold gen_lingo. cbn [gen_lingo_sp]. rewrite (is_const_reify en pc x Hok).
+  destruct x; cbn [raw_or]; try (f_equal; exact (HP Hok pc ind)).
+  - cbn [reify_e name_of]. rewrite render_cons, render_nil, append_nil_r. reflexivity.
+  - cbn [reify_e]. rewrite render_cons, render_nil, append_nil_r. cbn [render_tok].
+    destruct (nth k0 (e_consts en) (CInt 0)); reflexivity.
+Qed.
+
+Lemma accessor_text p obj prop ind o : gen_lingo obj ind = o ->
+  String.eqb o "me" = false -> starts_with "_" o = false -> String.eqb o "tell_obj" = false ->
+  gen_lingo (Accessor p obj prop) ind = ("the " ++ prop ++ " of " ++ o)%string.
+Proof. intros E H1 H2 H3. unfold gen_lingo in *. cbn [gen_lingo_sp]. rewrite E, H1, H2, H3. reflexivity. Qed.
+Lemma ustrop_some_text nm p t obj ind o : gen_lingo obj ind = o ->
+  gen_lingo (UStrOp nm p (Some t) obj) ind =
+  (if String.eqb nm "last" then "the " ++ nm ++ " " ++ t ++ " of " ++ o else "the " ++ nm ++ " of " ++ t ++ "s of " ++ o)%string.
+Proof. intros E. unfold gen_lingo in *. cbn [gen_lingo_sp]. rewrite E. reflexivity. Qed.
+Lemma ustrop_none_text nm p obj ind o : gen_lingo obj ind = o ->
+  gen_lingo (UStrOp nm p None obj) ind = ("the " ++ nm ++ " of " ++ o)%string.
+Proof. intros E. unfold gen_lingo in *. cbn [gen_lingo_sp]. rewrite E. reflexivity. Qed.
+Lemma unary_text nm p obj ind o : gen_lingo obj ind = o -> String.eqb nm "minus" = false ->
+  gen_lingo (Unary nm p obj) ind = (nm ++ " " ++ o)%string.
+Proof. intros E H. unfold gen_lingo in *. cbn [gen_lingo_sp]. rewrite E, H. reflexivity. Qed.
+Lemma menuitems_text p obj ind o : gen_lingo obj 0%nat = o ->
+  gen_lingo (MenuItemsAcc p obj) ind = ("menuItems of " ++ o)%string.
+Proof. intros E. unfold gen_lingo in *. cbn [gen_lingo_sp]. rewrite E. reflexivity. Qed.
+Lemma menuitem_text p m i ind om oi : gen_lingo m 0%nat = om -> gen_lingo i 0%nat = oi ->
+  gen_lingo (MenuItemAcc p m i) ind = (oi ++ " of " ++ om)%string.
+Proof. intros E1 E2. unfold gen_lingo in *. cbn [gen_lingo_sp]. rewrite E1, E2. reflexivity. Qed.
+
 Theorem gen_lingo_is_render en : forall e, PT en e.
 Proof.
   apply (expr_ind2 (PT en) (PTArgs en)); unfold PT.
@@ -188,8 +234,21 @@ Proof.
       unfold gen_lingo. rewrite (gen_lingo_todict _ _ _ _ _ _ Hne). rewrite map_rev. unfold gen_lingo in E. rewrite E.
       rewrite goR_rev by (rewrite map_length; exact Hev).
       norm_render. rewrite render_sep, render_pairs_F. rewrite map_map. repeat rewrite sappend_assoc. rewrite ?append_nil_r. reflexivity.
-  - intros f pid x _ [].
-  - intros pid it mn _ _ [].
+  - (* the <property> of <object> *) intros f pid x IHx Hx pc ind. cbn [text_ok] in Hx. cbn [reify_e pp_tok].
+    pose proof (ident_text en pc x IHx Hx) as Hid. pose proof (IHx Hx pc) as Hg.
+    destruct f; cbn [obj_node raw_fam fclass].
+    + erewrite accessor_text; [|apply Hid|reflexivity..]. norm_render. reflexivity.
+    + erewrite accessor_text; [|apply Hid|reflexivity..]. norm_render. reflexivity.
+    + erewrite accessor_text; [|apply Hid|reflexivity..]. norm_render. reflexivity.
+    + erewrite accessor_text; [|apply Hid|reflexivity..]. norm_render. reflexivity.
+    + erewrite accessor_text; [|apply unary_text; [apply Hg|reflexivity]|reflexivity..]. norm_render. reflexivity.
+    + erewrite ustrop_some_text; [|apply Hg]. norm_render. reflexivity.
+    + erewrite ustrop_some_text; [|apply Hg]. norm_render. reflexivity.
+    + erewrite ustrop_none_text; [|apply Hid]. norm_render. reflexivity.
+    + erewrite ustrop_none_text; [|apply menuitems_text; apply Hid]. norm_render. reflexivity.
+  - (* the <property> of menuItem <id> of menu <id> *) intros pid it mn IHi IHm [Hi Hm] pc ind. cbn [reify_e pp_tok].
+    erewrite accessor_text; [|apply menuitem_text; [apply (ident_text en _ mn IHm Hm)|apply (ident_text en pc it IHi Hi)]|reflexivity..].
+    norm_render. reflexivity.
   - intros _ pc ind. reflexivity.
   - intros x l IHx IHl [Hx Hl] pc ind. cbn [reify_args]. destruct (reify_args en (pc + zlen (compile_e x)) l) as [ns pa] eqn:Er.
     cbn [fst map]. rewrite (IHx Hx). specialize (IHl Hl (pc + zlen (compile_e x))%Z ind). rewrite Er in IHl. cbn [fst] in IHl. rewrite IHl. reflexivity.
@@ -218,7 +277,9 @@ Definition stmt_text (en : env) (props : list string) (s : stmt) : string :=
     | [] => nth f (e_lfuncs en) ""
     | _ => (nth f (e_lfuncs en) "" ++ " " ++ join ", " (map (fun e => render en (pp_tok en e)) args))%string
     end
-  | SSetObj _ _ _ _ => ""%string      (* object properties are outside the text theorems (text_ok_s) *)
+  | SSetObj f pid o v =>
+    ("set the " ++ nth pid (ftable f) "" ++ " of " ++ lingo_leaf_obj (fclass f) (render en (raw_or o (pp_tok en o))) ++
+     " = " ++ render en (pp_tok en v))%string
   end.
 
 Definition leaf_like (k : lclass) (n : node) : Prop := match n with Leaf k' _ _ _ => k' = k | _ => False end.
@@ -234,7 +295,7 @@ Definition text_ok_s (en : env) (props : list string) (s : stmt) : Prop :=
   (* go is a family of its own: go loop / go next / go previous write their symbol bare *)
   | SCallS f args => (lingo_plain_call (nm en f) = true /\ String.eqb (nm en f) "go" = false) /\ text_ok_args en args
   | SLCallS f args => (lingo_plain_call (nth f (e_lfuncs en) "") = true /\ String.eqb (nth f (e_lfuncs en) "") "go" = false) /\ text_ok_args en args
-  | SSetObj _ _ _ _ => False
+  | SSetObj f _ o v => assignable f = true /\ text_ok en o /\ text_ok en v
   end.
 
 Lemma args_text en l : text_ok_args en l -> forall pc ind,
@@ -246,11 +307,24 @@ Proof.
   rewrite IH. reflexivity.
 Qed.
 
+Lemma assign_line p p2 l r ind ls rs : gen_lingo l ind = ls -> gen_lingo r ind = rs -> starts_with "field(" ls = false ->
+  gen_lingo (Stmt p (Binary "assign" p2 l r)) ind = (indent ind ++ ("set " ++ ls ++ " = " ++ rs) ++ "
+")%string.
+Proof.
+  intros E1 E2 Hf. unfold gen_lingo in *. cbn [gen_lingo_sp]. change (String.eqb "assign" "assign") with true. cbn iota.
+  rewrite E1, E2, Hf. reflexivity.
+Qed.
+
 Theorem stmt_line en props s : text_ok_s en props s -> forall pc ind,
   gen_lingo (reify_s en props pc s) ind = (indent ind ++ stmt_text en props s ++ "
 ")%string.
 Proof.
-  destruct s as [t e|f args|f args|fam pid o v]; intros Hok pc ind; [| | |destruct Hok].
+  destruct s as [t e|f args|f args|fam pid o v]; intros Hok pc ind; [| | |].
+  4:{ destruct Hok as (Hfam & Ho & Hv). cbn [reify_s stmt_text].
+      pose proof (ident_text en pc o (gen_lingo_is_render en o) Ho) as Hid.
+      pose proof (gen_lingo_is_render en v Hv) as Hg.
+      destruct fam; try discriminate Hfam; cbn [fclass];
+        (etransitivity; [eapply assign_line; [eapply accessor_text; [apply Hid|reflexivity..] | apply Hg | reflexivity] | repeat rewrite sappend_assoc; reflexivity]). }
   - destruct Hok as (He & Hf & Ht). cbn [reify_s stmt_text]. unfold gen_lingo. cbn [gen_lingo_sp].
     change (String.eqb "assign" "assign") with true. cbn iota.
     pose proof (gen_lingo_is_render en e He pc ind) as E. unfold gen_lingo in E. rewrite E.
